@@ -364,6 +364,10 @@ func TestC20Normalizations(t *testing.T) {
 	if err != nil {
 		c.fail("normalization", "file", "the loader rejects the built-in table: %v", err)
 	}
+	loadedOnce := map[string]string{}
+	for name, n := range syscalls {
+		loadedOnce[name] = fmt.Sprint(n.ECS.Category.Values, n.ECS.Type.Values)
+	}
 	inAnyTable := map[string]bool{}
 	for _, tab := range auparse.AuditSyscalls {
 		for _, n := range tab {
@@ -439,6 +443,94 @@ func TestC20Normalizations(t *testing.T) {
 			}
 		}
 	}
+	// selection for compound events: a record of the type in a group with a SYSCALL record. What the record type and
+	// the syscall select together is fixed when the event is returned: every event is kept, and after the whole
+	// sweep (same record type with every other syscall in between) it must still carry the categorisation it had,
+	// which holds every value of both entries
+	x64 := map[string]int{}
+	for num, name := range auparse.AuditSyscalls["x86_64"] {
+		x64[name] = num
+	}
+	var sysReps []string // one syscall per distinct ECS categorisation
+	seenECS := map[string]bool{}
+	var sysNames []string
+	for name := range syscalls {
+		sysNames = append(sysNames, name)
+	}
+	sort.Strings(sysNames)
+	for _, name := range sysNames {
+		n := syscalls[name]
+		k := fmt.Sprint(n.ECS.Category.Values, n.ECS.Type.Values)
+		if _, ok := x64[name]; ok && !seenECS[k] && len(n.ECS.Category.Values)+len(n.ECS.Type.Values) > 0 {
+			seenECS[k] = true
+			sysReps = append(sysReps, name)
+		}
+	}
+	for _, name := range []string{"setsockopt", "getpid", "nanosleep"} { // and syscalls the table leaves to its "*" entry
+		if _, listed := syscalls[name]; !listed && syscalls["*"] != nil {
+			sysReps = append(sysReps, name)
+			break
+		}
+	}
+	normOf := func(name string) *aucoalesce.Normalization {
+		if n := syscalls[name]; n != nil {
+			return n
+		}
+		return syscalls["*"]
+	}
+	type held struct {
+		key      string
+		ev       *aucoalesce.Event
+		cat, typ []string
+	}
+	var kept []held
+	var typeNames []string
+	for name := range recordTypes {
+		typeNames = append(typeNames, name)
+	}
+	sort.Strings(typeNames)
+	for _, name := range typeNames {
+		norms := recordTypes[name]
+		typ, err := auparse.GetAuditMessageType(name)
+		if err != nil || len(norms) != 1 || typ == auparse.AUDIT_SYSCALL || typ == auparse.AUDIT_EOE || typ == auparse.AUDIT_AVC {
+			continue
+		}
+		n := norms[0]
+		for _, sys := range sysReps {
+			key := name + "+" + sys
+			sc, err1 := auparse.Parse(auparse.AUDIT_SYSCALL, fmt.Sprintf("audit(1.000:8): arch=c000003e syscall=%d success=yes exit=0 a0=0 a1=0 a2=0 a3=0 items=0 ppid=1 pid=2 auid=0 uid=0 gid=0 euid=0 suid=0 fsuid=0 egid=0 sgid=0 fsgid=0 tty=(none) ses=1 comm=\"c\" exe=\"/c\" key=(null)", x64[sys]))
+			m, err2 := auparse.Parse(typ, "audit(1.000:8): pid=2 uid=0 op=x res=1")
+			if err1 != nil || err2 != nil {
+				continue
+			}
+			ev, err := aucoalesce.CoalesceMessages([]*auparse.AuditMessage{m, sc}) // the kernel's order for these groups
+			if err != nil || ev == nil || ev.Type != typ {
+				continue // the group is not an event of this record type: nothing to say here
+			}
+			c.entry("normalization-compound", key)
+			for _, want := range append(append([]string{}, n.ECS.Category.Values...), normOf(sys).ECS.Category.Values...) {
+				if !contains(ev.ECS.Event.Category, want) {
+					c.fail("normalization-compound", key, "categories %v lack %q (record type entry: %v, syscall entry: %v)", ev.ECS.Event.Category, want, n.ECS.Category.Values, normOf(sys).ECS.Category.Values)
+				}
+			}
+			for _, want := range append(append([]string{}, n.ECS.Type.Values...), normOf(sys).ECS.Type.Values...) {
+				if !contains(ev.ECS.Event.Type, want) {
+					c.fail("normalization-compound", key, "types %v lack %q (record type entry: %v, syscall entry: %v)", ev.ECS.Event.Type, want, n.ECS.Type.Values, normOf(sys).ECS.Type.Values)
+				}
+			}
+			kept = append(kept, held{key, ev, append([]string{}, ev.ECS.Event.Category...), append([]string{}, ev.ECS.Event.Type...)})
+		}
+	}
+	for _, h := range kept {
+		if fmt.Sprint(h.ev.ECS.Event.Category) != fmt.Sprint(h.cat) || fmt.Sprint(h.ev.ECS.Event.Type) != fmt.Sprint(h.typ) {
+			c.fail("normalization-compound", h.key, "the event came out with categories %v and types %v; after further events of the same record type with other syscalls it carries %v and %v", h.cat, h.typ, h.ev.ECS.Event.Category, h.ev.ECS.Event.Type)
+		}
+	}
+	for name, n := range syscalls { // and the table itself still says what it said
+		if s0 := loadedOnce[name]; s0 != fmt.Sprint(n.ECS.Category.Values, n.ECS.Type.Values) {
+			c.fail("normalization-syscall", name, "the entry changed while it was used: %s, now %v %v", s0, n.ECS.Category.Values, n.ECS.Type.Values)
+		}
+	}
 	// loading twice gives the same selection
 	s2, r2, err := aucoalesce.LoadNormalizationConfig(b)
 	if err != nil || len(s2) != len(syscalls) || len(r2) != len(recordTypes) {
@@ -449,6 +541,15 @@ func TestC20Normalizations(t *testing.T) {
 			c.fail("normalization-syscall", name, "selects a different normalisation on a second load")
 		}
 	}
+}
+
+func contains(l []string, s string) bool {
+	for _, x := range l {
+		if x == s {
+			return true
+		}
+	}
+	return false
 }
 
 func errnoCanon(n int) string { return auparse.AuditErrnoToName[n] }
